@@ -26,7 +26,19 @@ func checkC05(c *Ctx) {
 		c.Unresolved("C05.1", "Synchronizer", "anchor missing")
 		return
 	}
+	// the part of advanceView that enters the next view: advanceView itself or the private helper it was split into
+	advRoot := adv
+	for _, hf := range helperClosure(p, advRoot, 2) {
+		if len(callsIn(hf, false, func(cc *ssa.CallCommon) bool { return calleeIs(cc, nextView) })) > 0 {
+			adv = hf
+			break
+		}
+	}
 	fl := NewFlow(p, adv)
+	flRoot := fl
+	if adv != advRoot {
+		flRoot = NewFlow(p, advRoot)
+	}
 	isStoreLastTimeoutNil := func(in ssa.Instruction) bool {
 		st, ok := in.(*ssa.Store)
 		if !ok {
@@ -156,13 +168,14 @@ func checkC05(c *Ctx) {
 	// timer event -> OnLocalTimeout for the current view only
 	{
 		ok := false
-		for _, h := range p.registeredHandlers(namedType(p, "", "TimeoutEvent")) {
+		for _, hb := range p.registeredHandlerBodies(namedType(p, "", "TimeoutEvent")) {
+			h := hb.Fn
 			if funcPkgPath(h) != modPath+"/protocol/synchronizer" {
 				continue
 			}
 			fh := NewFlow(p, h)
 			for _, s := range callsIn(h, false, func(cc *ssa.CallCommon) bool { return calleeIs(cc, olt) }) {
-				if hasCmp(fh.At(s), "==", func(k string) bool { return strings.HasPrefix(k, "(*hs/protocol.ViewStates).View(") }, is("p0.hs.TimeoutEvent.View")) {
+				if hasCmp(fh.At(s), "==", func(k string) bool { return strings.HasPrefix(k, "(*hs/protocol.ViewStates).View(") }, is(hb.EvKey+".hs.TimeoutEvent.View")) {
 					ok = true
 				}
 			}
@@ -185,7 +198,9 @@ func checkC05(c *Ctx) {
 			"the timer adds TimeoutEvent{View: view at arming time}; the handler calls OnLocalTimeout under state.View() == event.View", "handler gate: "+boolStr(ok)+", event carries the arming view: "+boolStr(armed))
 	}
 	// C05.6 a proposal for a view the replica has not reached yet is kept until the next view change, not dropped
-	for _, h := range p.registeredHandlers(namedType(p, "", "ProposeMsg")) {
+	for _, hb := range p.registeredHandlerBodies(namedType(p, "", "ProposeMsg")) {
+		h := hb.Fn
+		ev := hb.EvKey
 		if funcPkgPath(h) != modPath+"/protocol/synchronizer" {
 			continue
 		}
@@ -219,10 +234,10 @@ func checkC05(c *Ctx) {
 			if isDelay(in) {
 				call := in.(*ssa.Call)
 				k := fh.K.Key(call.Call.Args[1])
-				argOK = k == "p0" || k == "*&[p0]" || strings.HasSuffix(k, "[p0]")
+				argOK = k == ev || k == "*&["+ev+"]" || strings.HasSuffix(k, "["+ev+"]")
 				if mi, ok := call.Call.Args[1].(*ssa.MakeInterface); ok {
 					kk := fh.K.Key(mi.X)
-					argOK = kk == "p0" || strings.Contains(kk, "p0")
+					argOK = kk == ev || strings.Contains(kk, ev)
 				}
 			}
 		})
@@ -278,6 +293,7 @@ func checkC05(c *Ctx) {
 	// timeout certificates never learns newer QCs and, once leader, proposes on an old one that locked peers refuse)
 	if updQC := p.Method("protocol", "ViewStates", "UpdateHighQC"); updQC != nil {
 		var vsi ssa.CallInstruction
+		adv, fl := advRoot, flRoot
 		for _, s := range callsIn(adv, false, func(cc *ssa.CallCommon) bool { return cc.IsInvoke() && cc.Method.Name() == "VerifySyncInfo" }) {
 			vsi = s
 		}
@@ -348,9 +364,9 @@ func checkC05(c *Ctx) {
 		c.Check(okFresh && okResend && nRule > 0 && nVT == 1, "C05.11", "OnLocalTimeout: a failed view lengthens the timeout once", p.FuncPos(olt),
 			"duration.ViewTimeout() precedes every fresh timeout and is not reached on the re-send path", "fresh path ok: "+boolStr(okFresh)+", resend path ok: "+boolStr(okResend)+", call sites: "+itoa(nVT))
 		var bad []string
-		for _, s := range callsIn(adv, false, func(cc *ssa.CallCommon) bool { return cc.IsInvoke() && cc.Method.Name() == "ViewSucceeded" }) {
-			if !falseOf(fl.At(s), func(k string) bool { return strings.Contains(k, "VerifySyncInfo(") && strings.HasSuffix(k, "#2") }) {
-				bad = append(bad, "ViewSucceeded at "+p.Pos(s.Pos())+" not under !timeout")
+		for _, ds := range deepSites(flRoot, func(cc *ssa.CallCommon) bool { return cc.IsInvoke() && cc.Method.Name() == "ViewSucceeded" }, 0) {
+			if !falseOf(ds.Facts, func(k string) bool { return strings.Contains(k, "VerifySyncInfo(") && strings.HasSuffix(k, "#2") }) {
+				bad = append(bad, "ViewSucceeded at "+p.Pos(ds.Site.Pos())+" not under !timeout")
 			}
 		}
 		for _, s := range callsIn(adv, false, func(cc *ssa.CallCommon) bool { return calleeIs(cc, nextView) }) {
@@ -368,7 +384,7 @@ func checkC05(c *Ctx) {
 		fr := NewFlow(p, ort)
 		isAdv := func(in ssa.Instruction) bool {
 			ci, ok := in.(ssa.CallInstruction)
-			return ok && calleeIs(ci.Common(), adv) && fr.K.Key(ci.Common().Args[1]) == "p1."+kTOMsg+"SyncInfo"
+			return ok && calleeIs(ci.Common(), advRoot) && fr.K.Key(ci.Common().Args[1]) == "p1."+kTOMsg+"SyncInfo"
 		}
 		var bad []string
 		n := 0
@@ -391,7 +407,7 @@ func checkC05(c *Ctx) {
 				bad = append(bad, p.Pos(r.Pos()))
 			}
 		}
-		has := len(callsIn(ort, false, func(cc *ssa.CallCommon) bool { return calleeIs(cc, adv) })) >= 2
+		has := len(callsIn(ort, false, func(cc *ssa.CallCommon) bool { return calleeIs(cc, advRoot) })) >= 2
 		c.Check(len(bad) == 0 && has, "C05.12", "OnRemoteTimeout: only unverifiable timeouts are dropped before their sync info is used", p.FuncPos(ort),
 			itoa(n)+" early return(s), each on a failed signature / signer check; every other path calls advanceView(timeout.SyncInfo)",
 			"a verified timeout can be dropped at "+join(bad)+" before advanceView(timeout.SyncInfo): a lagging replica never learns the quorum's high QC")
